@@ -95,12 +95,13 @@ def gen_class(rng: random.Random, name: str, bases: list[str], indent: str = "",
         r = rng.random()
         mname = f"{name.lower()}_m{i}"
         doc = f'\n{ind}    """Doc of {mname}."""' if rng.random() < 0.5 else ""
+        kw = "async def" if rng.random() < 0.2 else "def"  # coroutine variants of every method flavour
         if r < 0.35:
-            src += f"{ind}def {mname}({rand_params(rng, 'self')}):{doc}\n{ind}    return 1\n"
+            src += f"{ind}{kw} {mname}({rand_params(rng, 'self')}):{doc}\n{ind}    return 1\n"
         elif r < 0.5:
-            src += f"{ind}@staticmethod\n{ind}def {mname}({rand_params(rng)}):{doc}\n{ind}    return 1\n"
+            src += f"{ind}@staticmethod\n{ind}{kw} {mname}({rand_params(rng)}):{doc}\n{ind}    return 1\n"
         elif r < 0.65:
-            src += f"{ind}@classmethod\n{ind}def {mname}({rand_params(rng, 'cls')}):{doc}\n{ind}    return 1\n"
+            src += f"{ind}@classmethod\n{ind}{kw} {mname}({rand_params(rng, 'cls')}):{doc}\n{ind}    return 1\n"
         elif r < 0.8:
             src += f"{ind}@property\n{ind}def {mname}(self):{doc}\n{ind}    return 1\n"
         else:
